@@ -544,6 +544,7 @@ def same_instance(program, rep, switch_fn, spaths):
                'on_switch_in and its adoption', line=f.node.lineno)
     # adoption itself
     ok = True
+    early = None
     for Q in qexits:
         tr = Q.state.trace
         st_ = {e.target.text: e.sym.text for e in tr if e.kind == 'store'
@@ -551,6 +552,31 @@ def same_instance(program, rep, switch_fn, spaths):
         if st_.get('self._current_world') != f'{p[1]}()' or st_.get(
                 'self._current_world_handle') != p[1]:
             ok = False
+        # the world adopted is the one the handle yields AFTER the clears of
+        # this switch (clear_current may clear the very handle being entered)
+        i_store = [i for i, e in enumerate(tr) if e.kind == 'store'
+                   and e.target is not None
+                   and e.target.text == 'self._current_world']
+        if i_store:
+            loads = [i for i, e in _calls(tr[:i_store[-1] + 1])
+                     if norm(e.sym.node) == f'{p[1]}()']
+            clears_ = [i for i, e in _calls(tr) if isinstance(
+                e.sym.node.func, ast.Attribute)
+                and e.sym.node.func.attr == 'clear' and norm(
+                    e.sym.node.func.value) in (p[1],
+                                               'self._current_world_handle')]
+            if loads and clears_ and max(clears_) > loads[-1]:
+                ok = False
+                early = tr[loads[-1]].node
+    if early is not None:
+        rep.bad('C13.current', site, early,
+                'the world the loop adopts is taken from the target handle '
+                'BEFORE a handle is cleared later in the same switch: when '
+                'the target is the current handle (restart with '
+                'clear_current) the loop keeps processing the discarded '
+                'instance - disabled by switch() and never enabled again - '
+                'while a fresh, orphan world is the one that gets enabled',
+                line=getattr(early, 'lineno', None))
     rep.check(ok, 'C13.current', site, 'self._current_world = world_handle()',
               'the loop adopts the target handle and its loaded instance',
               'Loop.switch does not store the target handle and its world as '
